@@ -204,20 +204,30 @@ def dec_pres(x):
     return ("nv", dec_nv(x[1]))
 
 
-def model_cells(m, cases, sel=0):
-    """cases: list of (octx or None, cell, mode) -> list of (text, result)"""
+def model_cells(m, cases, sel=0, chunk=40):
+    """cases: list of (octx or None, cell, mode) -> list of (text, result).  The cases run through the model as HISTORIES on
+    one CellParser state (CellHistory.cp_run, `chunk` calls each), as they run through one real CellParser."""
     reqs = []
-    for octx, cell, mode in cases:
-        oc = "()" if octx is None else "(" + enc_ctx(octx) + ")"
-        reqs.append(f"(116 1 {sel} {oc} {enc_cell(cell)} {mode})")
+    for k in range(0, len(cases), chunk):
+        calls = []
+        for octx, cell, mode in cases[k:k + chunk]:
+            oc = "()" if octx is None else "(" + enc_ctx(octx) + ")"
+            calls.append(f"({oc} {enc_cell(cell)} {mode})")
+        reqs.append(f"(116 5 {sel} ({' '.join(calls)}))")
     outs = m.ask_many(reqs)
     res = []
-    for o in outs:
+    for k, o in zip(range(0, len(cases), chunk), outs):
         x = parse_sexp(o)
-        if x == [999998] or x == [999997]:
-            res.append((None, ("err", "BADINPUT")))
-        else:
-            res.append((dec_str(x[0]), dec_pres(x[1])))
+        n = len(cases[k:k + chunk])
+        if x == [999998] or x == [999997] or len(x) != n:
+            # a call of the history cannot be decoded: ask one by one so that the others are still compared
+            for octx, cell, mode in cases[k:k + chunk]:
+                oc = "()" if octx is None else "(" + enc_ctx(octx) + ")"
+                y = parse_sexp(m.ask(f"(116 1 {sel} {oc} {enc_cell(cell)} {mode})"))
+                res.append((None, ("err", "BADINPUT")) if y in ([999998], [999997]) else (dec_str(y[0]), dec_pres(y[1])))
+            continue
+        for y in x:
+            res.append((dec_str(y[0]), dec_pres(y[1])))
     return res
 
 
@@ -797,6 +807,161 @@ def gen_sheet(rng, ctx, p_missing):
     return rows
 
 
+# ------------------------------------------------------------------ sheets inserted into sheets (Insert.v)
+BOOK_HEADER = HEADER + ["template_arguments"]
+
+
+def enc_seg(sg):
+    if sg[0] == "rows":
+        return "(0 (" + " ".join(enc_srow(r) for r in sg[1]) + "))"
+    return f"(1 {enc_cell(sg[1])} {enc_str(sg[2])} {enc_cell(sg[3])})"
+
+
+def gen_insert_book(rng, p_missing):
+    """main inserts A (and maybe B), A may insert B; every sheet starts with an unconditional literal message.
+    -> (templates: list of (name, argname or None, segs), main segs, main ctx)"""
+    cx = gen_ctx(rng, tame=True)
+    cx.setdefault("name", "Ann")
+
+    def arg_cell(c):
+        r = rng.random()
+        if r < 0.25:
+            return T(rng.choice(["LIT", "w", "Ann"]))
+        if r < 0.7 and c:
+            x = rng.choice(list(c)) if rng.random() >= p_missing else rng.choice(MISSING + ["b1", "c1"])
+            return ("tmpl", ([("text", "a")] if rng.random() < 0.3 else []) + [("out", ("var", x))])
+        if r < 0.9:
+            return ("tmpl", [("out", gen_expr(rng, c, 1, p_missing))])
+        return ("tmpl", [("text", "a"), ("out", gen_expr(rng, c, 0, p_missing))])
+
+    def inc_cell(c):
+        r = rng.random()
+        if r < 0.7:
+            return T("")
+        if r < 0.85:
+            return T(rng.choice(["TRUE", "FALSE", "false", " false "]))
+        if r < 0.93:
+            return ("tmpl", [("out", gen_expr(rng, c, 1, p_missing))])
+        return ("native", gen_expr(rng, c, 1, p_missing))
+
+    def simple_rows(c):
+        """rows that usually compile: literal text, a reference (defined unless p_missing says otherwise), a loop over a literal list"""
+        def ref():
+            names = list(c)
+            if names and rng.random() >= p_missing:
+                return ("var", rng.choice(names))
+            return ("var", rng.choice(MISSING + ["name", "b1", "c1", "x"]))
+        rows = []
+        for _ in range(rng.choice([1, 2])):
+            k = rng.random()
+            if k < 0.3:
+                rows.append(dict(kind="plain", inc=T(""), main=T(rng.choice(["hello", "plain text", "a|b"]))))
+            elif k < 0.8:
+                rows.append(dict(kind="plain", inc=T(rng.choice(["", "", "TRUE", "FALSE"])), main=("tmpl", [("text", "m:"), ("out", ref())])))
+            else:
+                rows += [dict(kind="for", var="x", inc=T(""), main=T(rng.choice(["a;b", "p;q;r"]))),
+                         dict(kind="plain", inc=T(""), main=("tmpl", [("text", "it "), ("out", ("var", "x")), ("text", " "), ("out", ref())])),
+                         dict(kind="endfor", inc=T(""), main=T(""))]
+        return rows
+
+    def sheet(c, label, children):
+        segs = [("rows", [dict(kind="plain", inc=T(""), main=T("S " + label))])]
+        for _ in range(rng.choice([1, 2, 3])):
+            if children and rng.random() < 0.5:
+                segs.append(("insert", inc_cell(c), rng.choice(children), arg_cell(c)))
+            elif rng.random() < 0.75:
+                segs.append(("rows", simple_rows(c)))
+            else:
+                segs.append(("rows", gen_sheet(rng, c, p_missing)))
+        if children and not any(sg[0] == "insert" for sg in segs):
+            segs.append(("insert", inc_cell(c), rng.choice(children), arg_cell(c)))
+        segs.append(("rows", [dict(kind="plain", inc=T(""), main=T("E " + label))]))
+        return segs
+
+    argB = rng.choice(["c1", "c1", None])
+    argA = rng.choice(["b1", "b1", None])
+    # the block's own context: its argument (a string); names of the inserting flows are unknown there, and the generator
+    # of expressions draws them among the missing ones
+    tB = ("B", argB, sheet({argB: "v"} if argB else {}, "B", []))
+    tA = ("A", argA, sheet({argA: "v"} if argA else {}, "A", ["B"] if rng.random() < 0.6 else []))
+    main = sheet(cx, "main", ["A", "A", "B"])
+    return [tA, tB], main, cx
+
+
+def model_book(m, templates, main, cx, sel=0):
+    ts = "(" + " ".join(f"({enc_str(n)} ({enc_str(a) if a else ''}) ({' '.join(enc_seg(sg) for sg in segs)}))" for n, a, segs in templates) + ")"
+    o = m.ask(f"(116 4 {sel} {enc_ctx(cx)} {ts} ({' '.join(enc_seg(sg) for sg in main)}))")
+    x = parse_sexp(o)
+    if x in ([999998], [999997]):
+        return None
+    emits = [dec_str(e[1]) for e in x[0] if e[0] == 2]
+    res = ("ok",) if x[1] == [0] else ("err", ERRNAMES.get(x[1][1], str(x[1][1])))
+    texts = []
+    for sh in x[2]:
+        segs = []
+        for sg in sh:
+            if sg[0] == 0:
+                segs.append(("rows", [(dec_str(a), dec_str(b)) for a, b in sg[1]]))
+            else:
+                segs.append(("insert", dec_str(sg[1]), dec_str(sg[2])))
+        texts.append(segs)
+    return emits, res, texts
+
+
+def book_csv(segs, texts, first_from_start):
+    buf = io.StringIO()
+    w = csv.writer(buf, lineterminator="\n")
+    w.writerow(BOOK_HEADER)
+    first = True
+    for sg, tx in zip(segs, texts):
+        if sg[0] == "rows":
+            for r, (inc, main) in zip(sg[1], tx[1]):
+                w.writerow(["", KINDS[r["kind"]][1], "start" if (first and first_from_start) else "", inc, r.get("var", ""), main, ""])
+                first = False
+        else:
+            w.writerow(["", "insert_as_block", "", tx[1], "", sg[2], tx[2]])
+            first = False
+    return buf.getvalue()
+
+
+def impl_book(files, cx):
+    """a real ContentIndexParser holding the templates; the main sheet compiled by FlowParser in the given context, as
+    _parse_flow does -> ('ok', messages) | ('err', kind, message)"""
+    import tablib
+    from rpft.converters import get_content_index_parser
+    from rpft.parsers.creation.flowparser import FlowParser
+    from rpft.rapidpro.models.containers import RapidProContainer
+
+    d = tempfile.mkdtemp(prefix="c16book")
+    try:
+        for name, text in files.items():
+            with open(os.path.join(d, name + ".csv"), "w", encoding="utf8", newline="") as f:
+                f.write(text)
+
+        def go():
+            parser = get_content_index_parser([d], "csv", None, [])
+            t = tablib.import_set(files["main"], format="csv")
+            fp = FlowParser(RapidProContainer(), "main", t, context=py_ctx(cx), content_index_parser=parser)
+            return fp.parse().render()
+        r = run_cli_mode(go)
+    finally:
+        shutil.rmtree(d, ignore_errors=True)
+    if r[0] == "ok":
+        return ("ok", flow_messages(r[1]))
+    return r
+
+
+def book_files(templates, main, texts):
+    ci = [["type", "sheet_name", "data_sheet", "data_row_id", "template_arguments", "new_name", "status"]]
+    files = {}
+    for (n, a, segs), tx in zip(templates, texts[:-1]):
+        ci.append(["template_definition", n, "", "", (a + ";;|") if a else "", "", ""])
+        files[n] = book_csv(segs, tx, False)
+    files["main"] = book_csv(main, texts[-1], True)
+    files["content_index"] = csv_text(ci)
+    return files
+
+
 # ------------------------------------------------------------------ end to end (create_flows)
 def e2e_run(files):
     """files: dict name -> csv text.  -> ('ok', {flow name: [messages]}) | ('err', kind)"""
@@ -1207,6 +1372,44 @@ def run(ctx):
         nontrivial.add(("sheet", csvtext))
     stats["generated_sheets"] = sdist
 
+    # ---------------------------------------------------------------- (a2') inserted sheets: Insert.run_book <-> FlowParser + ContentIndexParser
+    n_books = (1500 if thorough else 150) * scale
+    bdist = {"ok": 0, "err": 0, "unsupported": 0, "graph_error_outside_model": 0, "error_inside_an_inserted_sheet": 0, "inserts_reached": 0}
+    for _ in range(n_books if m else 0):
+        templates, main, bcx = gen_insert_book(rng, rng.choice([0.0, 0.0, 0.1, 0.3]))
+        mo = model_book(m, templates, main, bcx)
+        v.coverage["evaluations"] += 1
+        if mo is None:
+            ctx.disagree("model rejected the book", repr(main)[:300], "BADINPUT", "")
+            continue
+        emits, mres_, texts = mo
+        files = book_files(templates, main, texts)
+        ires = impl_book(files, bcx)
+        if mres_[0] == "err" and mres_[1] in ("UNSUPPORTED", "FUEL"):
+            bdist["unsupported"] += 1
+            continue
+        if ires[0] == "err" and ires[1] == "critical" and any(g in ires[2] for g in GRAPH_ERRORS):
+            bdist["graph_error_outside_model"] += 1
+            continue
+        bdist["ok" if mres_[0] == "ok" else "err"] += 1
+        entered = sum(1 for e in emits if e in ("S A", "S B"))
+        if entered:
+            bdist["inserts_reached"] += 1
+            if mres_[0] == "err" and entered > sum(1 for e in emits if e in ("E A", "E B")):
+                bdist["error_inside_an_inserted_sheet"] += 1
+        if mres_[0] == "ok":
+            if ires[0] != "ok" or ires[1] != emits:
+                ctx.disagree("book: produced messages", dict(files=files, ctx=bcx), repr(("ok", emits)), repr(ires))
+        elif ires[0] != "err":
+            ctx.disagree("book: model errs (an inserted sheet or the inserting one stops), implementation delivers", dict(files=files, ctx=bcx),
+                         repr(mres_), repr(ires))
+            # the model is the reading of the property here: a flow was delivered although instantiation hit an error
+            if mres_[1] == "Undefined":
+                fail("missing-name-renders", f"a sheet with inserted sheets: the model stops with an undefined name, the implementation delivers {ires[1]!r}",
+                     dict(fn="bookmodel", files=files, ctx=bcx))
+        nontrivial.add(("bookmodel", files["main"], files.get("A", "")))
+    stats["generated_books_with_inserted_sheets"] = bdist
+
     # ---------------------------------------------------------------- (a3) end to end through create_flows
     n_e2e = (400 if thorough else 40) * scale
     edist = {"ok": 0, "err": 0, "unsupported": 0}
@@ -1273,6 +1476,63 @@ def run(ctx):
         nontrivial.add(("e2e", files["tpl"]))
     stats["e2e"] = edist
 
+    # ---------------------------------------------------------------- (b4) every instantiation road (model-free)
+    import c16_paths as P
+
+    n_paths = (3000 if thorough else 300) * scale
+    pdist = {"road x expectation": {}, "column": {}, "form": {}, "way": {}, "guard": {}, "error_names_the_planted_reference": 0,
+             "error_for_another_reason": 0}
+
+    def bump(d, k):
+        d[k] = d.get(k, 0) + 1
+
+    for _ in range(n_paths):
+        book = P.gen_book(rng)
+        real = P.realise(book)
+        res = P.run_book(real["files"], real["api"])
+        v.coverage["evaluations"] += 1
+        pl = book["plant"]
+        bump(pdist["road x expectation"], book["road"] + (" / error" if real["expect"] == "error" else " / exact values"))
+        for k in ("column", "form", "way", "guard"):
+            bump(pdist[k], pl[k])
+        if real["expect"] == "error" and res[0] != "ok":
+            root = pl["ref"].split(".")[0].split("[")[0]
+            msg = str(res[2])
+            named = ("undefined" in msg or "has no attribute" in msg) and (root in msg or pl["ref"].split(".")[-1].strip("']") in msg)
+            pdist["error_names_the_planted_reference" if named else "error_for_another_reason"] += 1
+        j = P.judge(real, res)
+        if j:
+            fail(j[0], f"instantiation road: {P.describe(book)}: {j[1][:600]}",
+                 dict(fn="book", files=real["files"], expect=real["expect"], api=real["api"], guard=real["guard"], what=P.describe(book)))
+        nontrivial.add(("book", real["files"].get(pl["sheet"] or "data", ""), book["road"], book["main_mode"]))
+    stats["instantiation_roads"] = pdist
+
+    # ---------------------------------------------------------------- (b5) histories on one long-lived ContentIndexParser
+    n_hist = (400 if thorough else 40) * scale
+    hdist = {"calls": {}, "lengths": {}, "histories_with_failing_and_delivering_calls": 0, "histories_uniform": 0, "workbook_does_not_load": 0}
+    for _ in range(n_hist):
+        book = P.history_book(rng)
+        ops = P.gen_ops(rng, book, rng.choice([3, 4, 5, 6]))
+        res = P.run_history(book, ops)
+        if res is None:
+            hdist["workbook_does_not_load"] += 1
+            continue
+        v.coverage["evaluations"] += len(res)
+        bump(hdist["lengths"], len(res))
+        for op, exp, got, fresh in res:
+            bump(hdist["calls"], op[0] + (" / error" if exp == "error" else " / exact values"))
+        mixed = len({e == "error" for _, e, _, _ in res}) == 2
+        hdist["histories_with_failing_and_delivering_calls" if mixed else "histories_uniform"] += 1
+        j = P.judge_history(res)
+        if j:
+            fail(j[0], f"one ContentIndexParser, calls {ops}: {P.describe(book)}: {j[1][:600]}",
+                 dict(fn="history", book=book, ops=ops, what=P.describe(book)))
+        nontrivial.add(("history", repr(ops), P.describe(book)))
+    stats["parser_histories"] = hdist
+
+    # ---------------------------------------------------------------- (b6) histories on one long-lived CellParser / RowParser
+    stats["cell_histories"] = cell_histories(ctx, fail, (300 if thorough else 40) * scale, nontrivial)
+
     v.coverage["distinct_nontrivial"] = len(nontrivial)
     v.coverage["rule"] = (
         "planted-name families (28 evaluated positions + 24 positions inside list/tuple/dict literals, text and native, x 4 names must fail; "
@@ -1284,7 +1544,13 @@ def run(ctx):
         "run through parse_as_string/parse on model (policy = regenerated constants) and implementation, plus the spy oracle on every "
         "name the cell mentions and the context lacks; raw malformed cells (implementation oracle only); generated sheets "
         "(loops/blocks/include_if, depth <= 2) model vs FlowParser incl. the instantiate-call log; create_flows workbooks for every "
-        "way a name can be missing. non-trivial = distinct (cell text, context) inside the sub-language, distinct sheet, distinct exact-case")
+        "way a name can be missing; instantiation roads (c16_paths): ONE planted reference (18% defined, else unknown in one of 13 ways, 30% of "
+        "those in an un-evaluated position) in a generated column / form of a generated workbook, reached through create_flow plain / single / "
+        "bulk, insert_as_block depth 1 and 2 (own data row or not, inside a loop or not), TemplateSheetParser, and cells read with the empty "
+        "context, expectation (error | exact messages of every flow) from a reference interpreter; histories of _parse_flow / get_node_group / "
+        "parse_all_flows calls on ONE ContentIndexParser, failing calls in between, every call against the interpreter; histories of cells and rows "
+        "on ONE CellParser / RowParser against fresh ones and the known answers. "
+        "non-trivial = distinct (cell text, context) inside the sub-language, distinct sheet, distinct exact-case, distinct workbook, distinct history")
     v.coverage["samples"] = [repr(x)[:160] for x in list(sorted(nontrivial, key=repr))[:: max(1, len(nontrivial) // 5)][:5]]
     v.assumptions += [
         "Jinja2 outside the mini-language is not modelled (filters other than escape, tests, set, macros, arithmetic, globals as values)",
@@ -1295,6 +1561,112 @@ def run(ctx):
         "spy oracle: an object bound to the name sees every operation Jinja performs on that name's value",
         "pydantic data-row models behave like dicts for attribute access in the end-to-end cases (field names chosen outside pydantic's API)",
     ]
+
+
+# ------------------------------------------------------------------ histories on long-lived CellParser / RowParser objects
+HIST_CTX = {"name": "Ann", "row": {"k": "v"}, "lst": ["p", "q"], "flag": False, "yes": True, "n": 2}
+
+
+def history_pool():
+    """(text, context, mode, expectation): 'error' | ('value', v) — answers known by construction"""
+    E, V = "error", lambda x: ("value", x)
+    pool = [
+        ("{{ missing }}", HIST_CTX, 0, E), ("Hello {{ nickname }}!", HIST_CTX, 0, E), ("{% if missing %}a{% else %}b{% endif %}", HIST_CTX, 0, E),
+        ("{% for q in missing %}q{% endfor %}", HIST_CTX, 0, E), ("{{ row.missing }}", HIST_CTX, 0, E), ("{{ missing | upper }}", HIST_CTX, 0, E),
+        ("{@ missing @}", HIST_CTX, 1, E), ("{@ [n, missing] @}", HIST_CTX, 1, E), ("{{ name }}{{ missing }}", HIST_CTX, 0, E),
+        ("{{ missing }}", {}, 0, E), ("{{ name }}", {}, 0, E), ("{{ name }}", {"other": 1}, 0, E), ("{{ lst[7] }}", HIST_CTX, 0, E),
+        ("{% set z = missing %}{{ z }}", HIST_CTX, 0, E),
+        ("{{ name }}", HIST_CTX, 0, V("Ann")), ("Hello {{ name }}!", HIST_CTX, 0, V("Hello Ann!")), ("{% if flag %}{{ missing }}{% else %}b{% endif %}", HIST_CTX, 0, V("b")),
+        ("{{ row.k }}", HIST_CTX, 0, V("v")), ("{@ lst @}", HIST_CTX, 1, V(["p", "q"])), ("{@ n @}", HIST_CTX, 1, V(2)), ("plain", HIST_CTX, 0, V("plain")),
+        ("a;b", HIST_CTX, 1, V(["a", "b"])), ("{{ name }}", {"name": "Bob"}, 0, V("Bob")), ("{{ missing }}", {"missing": "now defined"}, 0, V("now defined")),
+        ("{{ missing }}", None, 0, V("{{ missing }}")), ("{{ flag and missing }}", HIST_CTX, 0, V("False")), ("{{ name | upper }}", HIST_CTX, 0, V("ANN")),
+        ("{% for q in lst %}{{ q }}{% endfor %}", HIST_CTX, 0, V("pq")), ("{{ nickname }}", {"nickname": ""}, 0, V("")),
+    ]
+    return pool
+
+
+def cell_histories(ctx, fail, n, nontrivial):
+    """Sequences of cells on ONE CellParser, and of rows on ONE RowParser / SheetParser sharing it: every result must be the
+    known answer and what a fresh object gives — whatever was parsed before (failing cells, the same cell, the same name defined)."""
+    from typing import List
+
+    import tablib
+    from rpft.parsers.common.cellparser import CellParser
+    from rpft.parsers.common.rowparser import ParserModel, RowParser
+    from rpft.parsers.common.sheetparser import SheetParser
+
+    class M(ParserModel):
+        s: str = ""
+        l: list = []
+        ls: List[str] = []
+
+    rng, v = ctx.rng, ctx.v
+    pool = history_pool()
+    dist = {"calls": 0, "expected_error": 0, "expected_value": 0, "repeats_of_an_earlier_call": 0, "kinds": {}, "lengths": {}}
+    for _ in range(n):
+        cp = CellParser()
+        rp = RowParser(M, cp)
+        ops = []
+        for _ in range(rng.choice([4, 6, 8, 12])):
+            if ops and rng.random() < 0.3:
+                ops.append(rng.choice(ops))
+                dist["repeats_of_an_earlier_call"] += 1
+            else:
+                ops.append((rng.choice(["cell", "cell", "row", "sheet"]), rng.randrange(len(pool))))
+        dist["lengths"][len(ops)] = dist["lengths"].get(len(ops), 0) + 1
+        hist = []
+        for kind, k in ops:
+            text, c, mode, exp = pool[k]
+            v.coverage["evaluations"] += 1
+            dist["calls"] += 1
+            dist["kinds"][kind] = dist["kinds"].get(kind, 0) + 1
+            dist["expected_error" if exp == "error" else "expected_value"] += 1
+            hist.append([kind, text, c, mode])
+            got = _hist_call(kind, cp, rp, M, text, c, mode)
+            want = "error" if exp == "error" else _hist_value(kind, exp[1], mode)
+            if got != want:
+                fresh_cp = CellParser()
+                fresh = _hist_call(kind, fresh_cp, RowParser(M, fresh_cp), M, text, c, mode)
+                note = " (a fresh parser gives the right answer: the result depends on the calls before)" if fresh == want else ""
+                key = "missing-name-renders" if exp == "error" else "defined-not-exact"
+                fail(key, f"call {len(hist) - 1} of a history on one CellParser/RowParser: {kind} {text!r} with {c!r} -> {got!r}, expected {want!r}{note}",
+                     dict(fn="cellhistory", history=hist, expect=want))
+                break
+        nontrivial.add(("cellhistory", repr(ops)))
+    return dist
+
+
+def _hist_value(kind, value, mode):
+    """what the known value of a cell becomes on the road `kind`"""
+    if kind == "cell":
+        return ("ok", value)
+    # row / sheet: the cell is the `s` (mode 0) or `l` (mode 1) field of a row model
+    if mode == 0:
+        return ("ok", str(value))
+    return ("ok", list(value) if isinstance(value, list) else [value])
+
+
+def _hist_call(kind, cp, rp, M, text, c, mode):
+    import tablib
+    from rpft.parsers.common.sheetparser import SheetParser
+
+    cc = None if c is None else py_ctx(c)
+    if kind == "cell":
+        r = run_cli_mode(cp.parse_as_string if mode == 0 else cp.parse, text, cc)
+        return ("ok", canon(r[1])) if r[0] == "ok" else "error"
+    field = "s" if mode == 0 else "l"
+    if kind == "row":
+        r = run_cli_mode(rp.parse_row, {field: text}, cc)
+    else:
+        def go():
+            t = tablib.Dataset(headers=[field])
+            t.append([text])
+            sp = SheetParser(rp, t, context=cc if cc is not None else {})
+            return sp.parse_next_row(omit_templating=cc is None)
+        r = run_cli_mode(go)
+    if r[0] != "ok":
+        return "error"
+    return ("ok", canon(getattr(r[1], field)))
 
 
 def collapse_star(rend):
@@ -1357,6 +1729,41 @@ def replay(rep):
     if r["fn"] == "sheetplanted":
         _, res = impl_sheet(r["csv"], r["ctx"])
         return res[0] == "err" if r["expect"] == "error" else (res[0] == "ok" and res[1] == r["expect"])
+    if r["fn"] == "bookmodel":
+        return impl_book(r["files"], r["ctx"])[0] == "err"
+    if r["fn"] == "book":
+        import c16_paths as P
+        res = P.run_book(r["files"], r.get("api"))
+        j = P.judge(dict(expect=r["expect"], guard=r.get("guard")), res)
+        if j:
+            print("  ", j[0], ":", j[1][:600])
+        return j is None
+    if r["fn"] == "history":
+        import c16_paths as P
+        res = P.run_history(r["book"], r["ops"])
+        j = P.judge_history(res) if res is not None else None
+        if j:
+            print("  ", j[0], ":", j[1][:600])
+        return j is None
+    if r["fn"] == "cellhistory":
+        from typing import List
+
+        from rpft.parsers.common.rowparser import ParserModel, RowParser
+
+        class M(ParserModel):
+            s: str = ""
+            l: list = []
+            ls: List[str] = []
+
+        rp = RowParser(M, cp)
+        got = None
+        for kind, text, c, mode in r["history"]:
+            got = _hist_call(kind, cp, rp, M, text, c, mode)
+        want = r["expect"] if r["expect"] == "error" else tuple(r["expect"])
+        got = got if got == "error" else tuple(got)
+        if got != want:
+            print("   last call of the history gives", got, "expected", want)
+        return got == want
     if r["fn"] == "sheet":
         iev, _ = impl_sheet(r["csv"], r["ctx"])
         bad = []
